@@ -63,6 +63,7 @@ type Case struct {
 	Nontrivial bool         `json:"nontrivial"`
 	HTTP       *HttpInfo    `json:"http,omitempty"`
 	Stream     *StreamInfo  `json:"stream,omitempty"`
+	Writer     []WriterRow  `json:"writer,omitempty"`
 }
 
 func hx(s string) string { return hex.EncodeToString([]byte(s)) }
@@ -1041,7 +1042,9 @@ func main() {
 	}
 	r := gen.FromEnv(6)
 	for k := 0; k < n; k++ {
-		switch x := r.Intn(27); {
+		switch x := r.Intn(29); {
+		case x >= 27:
+			caseWriter(r, idx)
 		case x == 26:
 			caseTsWhitespace(r, idx)
 		case x == 25:
